@@ -66,6 +66,7 @@ type machine struct {
 	dead    []*content // contents that were stored once (lookup probes)
 	lastTip uint64
 	nviews  int
+	growing bool // grow(): full blocks are appends
 }
 
 func newMachine(rt *rapid.T, c *stats.Case, withNode bool) *machine {
@@ -625,6 +626,9 @@ func (m *machine) actFull(rt *rapid.T) {
 		kinds = append(kinds, "new-round-below", "new-round-below", "same-round-below", "blank-below")
 	}
 	kind := rapid.SampledFrom(kinds).Draw(rt, "fullKind")
+	if m.growing {
+		kind = "append"
+	}
 	tip := m.tipSlot()
 	switch kind {
 	case "append":
@@ -870,6 +874,34 @@ func (m *machine) actQueryView(rt *rapid.T) {
 	m.verify("after querying a view")
 }
 
+// grow: LENGTH of the pre-confirmed chain. The poller keeps appending while the canonical head stays put (nothing caps the
+// length), but a Repeat of ~30 mixed actions rarely leaves more than 8 slots. A seventh of the cases therefore starts with a
+// bootstrap and 12-40 (thorough: -70) appends in a row, interleaved with views, so that views of more than 16 / 32 / 64 blocks
+// are taken, held and queried (every block of a long view is checked as an overlay once). Added after seed C20-h.
+func (m *machine) grow(rt *rapid.T) {
+	if rapid.IntRange(0, 6).Draw(rt, "longChain") != 0 {
+		return
+	}
+	hi := 40
+	if stats.Thorough() {
+		hi = 70
+	}
+	n := rapid.SampledFrom([]int{12, 15, 16, 17, 18, 24, 31, 32, 33, 34, hi}).Draw(rt, "growTo")
+	m.growing = true
+	for len(m.chain) < n {
+		m.actFull(rt)
+		if rapid.IntRange(0, 7).Draw(rt, "viewWhileGrowing") == 0 {
+			m.actTakeView(rt)
+		}
+	}
+	m.growing = false
+	m.c.Labelf("long-chain:%s", map[bool]string{true: ">16", false: "<=16"}[len(m.chain) > 16])
+	if hv := m.takeView(m.w.head() + 1); hv != nil && len(hv.exp) > 0 {
+		m.checkOverlay(rt, hv, "right after growing the chain", true)
+		m.checkLookups(rt, hv)
+	}
+}
+
 func (m *machine) actions() map[string]func(*rapid.T) {
 	return map[string]func(*rapid.T){
 		"full":    m.actFull,
@@ -912,13 +944,14 @@ func (m *machine) finish() {
 	})
 }
 
-const ruleCommon = "rapid state machine, single writer on the real preconfirmed.ChainStorage: full blocks (bootstrap, append, new round at the tip or below it with truncation, richer/equal/poorer same-round block, blank-identifier placeholder), deltas of 1-3 txs, no-change with/without class definitions, rejected updates (gap above tip, below the oldest slot, misaligned oldestPreConf, delta with wrong base count/identifier/slot, delta or no-change on an empty chain, bootstrap at a wrong height), AdvanceTo(head+1), canonical head advance by 1-3 (finalising the stored slot or another block) and revert by 1-2; readers call SnapshotForBlock(head+1 or an arbitrary number) at arbitrary points and KEEP the views. Content comes from the synthetic chain generator (per-transaction diffs whose in-order merge is a model-consistent block diff, with overwritten slots/nonces). Oracles after every action: list model of the documented ApplyUpdate/AdvanceTo cases, shape of every view, deep fingerprint of every view equal to the one at acquisition, tx/receipt lookups, PreConfirmedStateAt and PreConfirmedStateBeforeIndexAt vs ref.State(block below the view)+diffs. Non-trivial = a non-empty view is held across a later mutation of one of its slots (delta, replacement, truncation, class registration) or across a head move; distinct = SHA-256 of the rendered action sequence"
+const ruleCommon = "rapid state machine, single writer on the real preconfirmed.ChainStorage: full blocks (bootstrap, append, new round at the tip or below it with truncation, richer/equal/poorer same-round block, blank-identifier placeholder), deltas of 1-3 txs, no-change with/without class definitions, rejected updates (gap above tip, below the oldest slot, misaligned oldestPreConf, delta with wrong base count/identifier/slot, delta or no-change on an empty chain, bootstrap at a wrong height), AdvanceTo(head+1), canonical head advance by 1-3 (finalising the stored slot or another block) and revert by 1-2; readers call SnapshotForBlock(head+1 or an arbitrary number) at arbitrary points and KEEP the views; a seventh of the cases first grows the chain to 12-40 (thorough -70) slots by appends, so views longer than 16 and 32 blocks are taken, held and every block of them read as an overlay. Content comes from the synthetic chain generator (per-transaction diffs whose in-order merge is a model-consistent block diff, with overwritten slots/nonces). Oracles after every action: list model of the documented ApplyUpdate/AdvanceTo cases, shape of every view, deep fingerprint of every view equal to the one at acquisition, tx/receipt lookups, PreConfirmedStateAt and PreConfirmedStateBeforeIndexAt vs ref.State(block below the view)+diffs. Non-trivial = a non-empty view is held across a later mutation of one of its slots (delta, replacement, truncation, class registration) or across a head move; distinct = SHA-256 of the rendered action sequence"
 
 // TestPropStorageModel: the base state is served from the canonical model (no database).
 func TestPropStorageModel(t *testing.T) {
 	stats.Check(t, stats.Budget{Quick: 160, Thorough: 2500}, ruleCommon+"; base state read from the canonical model",
 		func(rt *rapid.T, c *stats.Case) {
 			m := newMachine(rt, c, false)
+			m.grow(rt)
 			rt.Repeat(m.actions())
 			m.finish()
 		})
@@ -931,6 +964,7 @@ func TestPropOverlay(t *testing.T) {
 	stats.Check(t, stats.Budget{Quick: 70, Thorough: 1000}, ruleCommon+"; base state = real Blockchain on either state backend storing/reverting the generated canonical blocks",
 		func(rt *rapid.T, c *stats.Case) {
 			m := newMachine(rt, c, true)
+			m.grow(rt)
 			rt.Repeat(m.actions())
 			m.finish()
 		})
